@@ -1326,8 +1326,20 @@ impl ThreadInternal for Thread {
             // Only the top level frame left means that the thread has finished
             return Err(Error::Dead).into();
         }
-        context = ready!(context.execute(cx))?.expect("Resume called on the top frame");
-        Ok(context).into()
+        match ready!(context.execute(cx)) {
+            Ok(context) => Ok(context.expect("Resume called on the top frame")).into(),
+            Err(mut err) => {
+                // The thread died with an error: unwind to the top level frame so that the next `resume` sees a
+                // dead thread instead of re-entering the frames of the failed call
+                let mut context = self.owned_context();
+                let stack = StackFrame::<State>::current(&mut context.stack);
+                let new_trace = reset_stack(stack, 1)?;
+                if let Error::Panic(_, ref mut trace) = err {
+                    *trace = Some(new_trace);
+                }
+                Err(err).into()
+            }
+        }
     }
 
     fn deep_clone_value(&self, owner: &Thread, value: &Value) -> Result<RootedValue<&Thread>> {
